@@ -150,12 +150,6 @@ theorem chk_sptensor_setitem (p : Params) (ops : List View) (h : atLeast 2 p ops
 
 /-! ### matricized -/
 
-theorem chk_tenmat_init (p : Params) (ops : List View) (h : atLeast 1 p ops.length = true) :
-    specCheck (noCopyIf [0] p) ops.length (tenmat_init p ops) = true := by
-  have h0 : 0 < ops.length := by simp [atLeast] at h; omega
-  unfold tenmat_init noCopyIf
-  cases hc : p.copy <;> ifs <;> (repeat' split) <;> first | (chk_simp; done) | (exfalso; simp at *)
-
 theorem chk_tenmat_to_tensor (p : Params) (ops : List View) (h : atLeast 1 p ops.length = true) :
     specCheck (noCopyIf [0] p) ops.length (tenmat_to_tensor p ops) = true := by
   have h0 : 0 < ops.length := by simp [atLeast] at h; omega
@@ -172,13 +166,6 @@ theorem chk_tenmat_setitem (p : Params) (ops : List View) (h : atLeast 3 p ops.l
   have h1 : 1 < ops.length := by simp [atLeast] at h; omega
   have h2 : 2 < ops.length := by simp [atLeast] at h; omega
   unfold tenmat_setitem; chk_simp
-
-theorem chk_sptenmat_init (p : Params) (ops : List View) (h : atLeast 2 p ops.length = true) :
-    specCheck (noCopyIf [0, 1] p) ops.length (sptenmat_init p ops) = true := by
-  have h0 : 0 < ops.length := by simp [atLeast] at h; omega
-  have h1 : 1 < ops.length := by simp [atLeast] at h; omega
-  unfold sptenmat_init noCopyIf
-  cases hc : p.copy <;> ifs <;> (repeat' split) <;> first | (chk_simp; done) | (exfalso; simp at *)
 
 theorem chk_sptenmat_double (p : Params) (ops : List View) :
     specCheck .pureFresh ops.length (sptenmat_double p ops) = true := by
